@@ -12,6 +12,34 @@ import (
 // shapeOf renders an SSA value as a small source-like expression, stable under
 // line moves and renames of locals that do not appear (parameters are named,
 // locals are rendered through their defining expression). Depth-limited.
+// shapeNorm, when set, renders identifiers a maintainer may rename freely (parameters, locals,
+// captured variables) positionally or anonymously: the result keys reviewed judgements.
+var shapeNorm bool
+
+func paramIndex(p *ssa.Parameter) int {
+	for i, q := range p.Parent().Params {
+		if q == p {
+			return i
+		}
+	}
+	return -1
+}
+
+// normShapeOf is shapeOf with local names abstracted.
+func normShapeOf(v ssa.Value) string {
+	old := shapeNorm
+	shapeNorm = true
+	defer func() { shapeNorm = old }()
+	return shapeOf(v, 0)
+}
+
+func normSiteShape(in ssa.Instruction) string {
+	old := shapeNorm
+	shapeNorm = true
+	defer func() { shapeNorm = old }()
+	return siteShape(in)
+}
+
 func shapeOf(v ssa.Value, d int) string {
 	if v == nil {
 		return ""
@@ -26,17 +54,29 @@ func shapeOf(v ssa.Value, d int) string {
 		}
 		return x.Value.ExactString()
 	case *ssa.Parameter:
+		if shapeNorm {
+			return fmt.Sprintf("p%d", paramIndex(x))
+		}
 		return x.Name()
 	case *ssa.FreeVar:
+		if shapeNorm {
+			return "fv"
+		}
 		return x.Name()
 	case *ssa.Global:
 		return x.Name()
 	case *ssa.Alloc:
+		if shapeNorm {
+			return "loc"
+		}
 		if x.Comment != "" {
 			return x.Comment
 		}
 		return "new"
 	case *ssa.Phi:
+		if shapeNorm {
+			return "φ"
+		}
 		if x.Comment != "" {
 			return "φ" + x.Comment
 		}
